@@ -103,6 +103,11 @@ def _worker_batch(cid, root_seed, tier, indices, run_cap_s, want_samples):
         "sim_time": 0.0,
     }
     cnt = out["counters"]
+    if _W.get("tainted"):
+        # a run of this worker was abandoned at the wall cap, i.e. interrupted at an arbitrary point
+        # (possibly in the middle of an import): nothing this process does afterwards is trusted
+        out["skipped_tainted_worker"] = len(indices)
+        return out
     _t0 = time.monotonic()
     _c0 = time.process_time()
     for idx in indices:
@@ -111,7 +116,8 @@ def _worker_batch(cid, root_seed, tier, indices, run_cap_s, want_samples):
         except RunTimeout:
             # counted, not a violation and not (by itself) an error: see the threshold in run_check
             out["timeouts"] = out.get("timeouts", 0) + 1
-            continue
+            _W["tainted"] = True
+            break
         except BaseException as e:  # noqa: BLE001
             if isinstance(e, KeyboardInterrupt):
                 raise
